@@ -41,7 +41,7 @@ Definition determine_status (self : status) (cof fp : bool) (before tasks after 
 
 (* ---- CompleteWorkflow ---- *)
 (* a top-level stage as _determine_final_status sees it:
-   (status, all_upstream_stages_complete()) ; [override] = some stage of the execution is STOPPED with
+   (status, _can_still_start(): evaluate_readiness(stage, upstreams).phase == READY) ; [override] = some stage of the execution is STOPPED with
    context.completeOtherBranchesThenFail *)
 Definition tl_stage := (status * bool)%type.
 
